@@ -313,11 +313,12 @@ def _network_metrics(tier, seed):
     root = _repo()
     evals, distinct, failures, samples = 0, set(), [], []
     nets = ["examples/networks/Net1.inp", "examples/networks/Net3.inp", "wntr/tests/networks_for_testing/Anytown_multipointcurves.inp",
-            "variant:Net1_interpolated_patterns_half_hour_steps", "variant:Net1_report_step_coarser_than_hydraulic_step", "variant:two_reservoirs_one_filled"] + \
+            "variant:Net1_interpolated_patterns_half_hour_steps", "variant:Net1_report_step_coarser_than_hydraulic_step", "variant:two_reservoirs_one_filled", "variant:two_reservoirs_power_pump",
+            "variant:Net1_with_inflow_junctions"] + \
         (["examples/networks/Net2.inp"] if tier == "thorough" else [])      # Anytown_multipointcurves: a tank with a volume curve
 
     def load(rel):
-        if rel == "variant:two_reservoirs_one_filled":
+        if rel in ("variant:two_reservoirs_one_filled", "variant:two_reservoirs_power_pump"):
             # a pumped source feeding through to a second, lower reservoir: that reservoir's demand is positive (it is being filled)
             w = wntr.network.WaterNetworkModel()
             w.add_reservoir("R1", base_head=20.0)
@@ -325,7 +326,10 @@ def _network_metrics(tier, seed):
             for i, dmd in enumerate((0.01, 0.02, 0.015)):
                 w.add_junction("J%d" % i, base_demand=dmd, elevation=5.0)
             w.add_curve("pc", "HEAD", [(0.0, 60.0), (0.1, 45.0), (0.2, 10.0)])
-            w.add_pump("PU", "R1", "J0", pump_type="HEAD", pump_parameter="pc")
+            if rel.endswith("power_pump"):
+                w.add_pump("PU", "R1", "J0", pump_type="POWER", pump_parameter=25000.0)       # a constant-power pump supplies power too
+            else:
+                w.add_pump("PU", "R1", "J0", pump_type="HEAD", pump_parameter="pc")
             w.add_pipe("P1", "J0", "J1", length=300, diameter=0.3, roughness=100)
             w.add_pipe("P2", "J1", "J2", length=300, diameter=0.3, roughness=100)
             w.add_pipe("P3", "J2", "R2", length=300, diameter=0.25, roughness=100)
@@ -342,6 +346,10 @@ def _network_metrics(tier, seed):
         if rel == "variant:Net1_report_step_coarser_than_hydraulic_step":
             w.options.time.hydraulic_timestep = 900
             w.options.time.report_timestep = 3600
+        if rel == "variant:Net1_with_inflow_junctions":
+            # wells: junctions with a negative demand (their "population" is negative and is rounded like any other)
+            for jn_, base in (("21", -0.00413), ("22", -0.0012), ("31", -0.00307), ("32", -0.002)):
+                w.get_node(jn_).demand_timeseries_list[0].base_value = base
         return w
     for rel in nets:
         wn = load(rel)
@@ -502,8 +510,35 @@ def _cost_metrics(tier, seed):
                 failures.append(dict(net=rel, variant=variant, metric="annual_ghg_emissions", got=float(ghg), expected=float(refg)))
             if len(samples) < 2:
                 samples.append(dict(net=rel, variant=variant, annual_network_cost=float(cost), annual_ghg=float(ghg)))
+            # the caller's own tables, each on a grid of its own, and two pressure-reducing valves in the network
+            import pandas as pd
+            jn = wn.junction_name_list
+            wn.add_valve("verif_prv_a", jn[0], jn[1], diameter=rng.choice([0.11, 0.26, 0.49]), valve_type="PRV", initial_setting=20.0)
+            wn.add_valve("verif_prv_b", jn[1], jn[2], diameter=rng.choice([0.2, 0.33, 0.7]), valve_type="PRV", initial_setting=20.0)
+            my_pipe = pd.Series([10.0, 20.0, 30.0, 55.0], index=[0.1, 0.2, 0.4, 0.8])
+            my_prv = pd.Series([100.0, 300.0, 900.0, 2000.0, 2700.0], index=[0.05, 0.15, 0.3, 0.5, 0.75])
+            my_tank = pd.Series([1.0e4, 5.0e4, 2.0e5], index=[300.0, 3000.0, 30000.0])
+            my_pump = pd.Series([1000.0, 3000.0, 7000.0], index=[5000.0, 30000.0, 90000.0])
+            cost = wntr.metrics.annual_network_cost(wn, tank_cost=my_tank, pipe_cost=my_pipe, prv_cost=my_prv, pump_cost=my_pump)
+            ref = 0.0
+            for tn, t in wn.tanks():
+                ref += nearest(list(my_tank.index), list(my_tank.values), math.pi * (t.diameter / 2) ** 2 * t.max_level)
+            for pn, p in wn.pipes():
+                ref += nearest(list(my_pipe.index), list(my_pipe.values), p.diameter) * p.length
+            for pn, p in wn.head_pumps():
+                A, B, C = p.get_head_curve_coefficients()
+                q = (A / (B * (C + 1))) ** (1.0 / C)
+                ref += nearest(list(my_pump.index), list(my_pump.values), 9.81 * 1000 * q * (A - B * q ** C) / eff)
+            for pn, p in wn.power_pumps():
+                ref += nearest(list(my_pump.index), list(my_pump.values), p.power / eff)
+            for vn, v in wn.valves():
+                if v.valve_type == "PRV":
+                    ref += nearest(list(my_prv.index), list(my_prv.values), v.diameter)
+            evals += 1
+            if not (abs(cost - ref) <= 1e-6 * max(1, abs(ref))):
+                failures.append(dict(net=rel, variant=variant, metric="annual_network_cost with the caller's tables and two PRVs", got=float(cost), expected=float(ref)))
     return dict(evaluations=evals, distinct_nontrivial=len(distinct), failures=failures[:10], samples=samples, exhaustive=False,
-                scope="Net1, Net3, Anytown with original and randomly re-sized pipes: annual_network_cost / annual_ghg_emissions vs the documented lookup tables (nearest entry) and the documented maximum-pump-power formula (efficiency as passed by the code: options.energy.global_efficiency)")
+                scope="Net1, Net3, Anytown with original and randomly re-sized pipes: annual_network_cost / annual_ghg_emissions vs the documented lookup tables (nearest entry) and the documented maximum-pump-power formula (efficiency as passed by the code: options.energy.global_efficiency); again with the caller's own tables, each on its own grid, and two PRVs added")
 
 
 BOUNDED = [Bounded("C20.cost_metrics", P, _cost_metrics, kind="example networks vs documented tables"), Bounded("C20.table_metrics", P, _tables, kind="random tables vs documented formulas"),
